@@ -189,8 +189,8 @@ func baseGen(weights map[string]int, lo, hi int) func(seed uint64, tier string) 
 func init() {
 	sim.Register(&sim.Check{
 		ID: "C02", Title: "A failing contract call only pays its fee and consumes its nonce", World: "ledger",
-		Gen:  Scenario{Weights: map[string]int{"send": 3, "call": 20, "pour": 3, "data": 0, "replay": 1, "block": 3, "clock": 1}, Lo: 20, Hi: 120, Mixed: true}.Gen,
-		Exec: baseExec("C02", func(w *World) []Observer { return []Observer{OracleC02{}} }),
+		Gen:   Scenario{Weights: map[string]int{"send": 3, "call": 20, "pour": 3, "data": 0, "replay": 1, "block": 3, "clock": 1}, Lo: 20, Hi: 120, Mixed: true}.Gen,
+		Exec:  baseExec("C02", func(w *World) []Observer { return []Observer{OracleC02{}} }),
 		Quick: sim.Budget{Runs: 320, WallS: 90}, Thorough: sim.Budget{Runs: 20000, WallS: 1500},
 		LevelText: "seeded search over contract calls that fail (every registered function, malformed and boundary payloads, wrong callers, insufficient funds); for every chargeable-failed transaction the structural MPT diff must be exactly {sender -fee, nonce+1; miner-contract wallet +fee} and the event list one error event (+ the user events of fee/nonce)",
 		LevelNote: "probe failed_after_state_write counts failures that happened after at least one contract-level insert/delete (the interesting case); contract-specific late-failure workloads (storage, staking, bridge) attach this oracle too",
@@ -199,8 +199,8 @@ func init() {
 	})
 	sim.Register(&sim.Check{
 		ID: "C04", Title: "Transactions debit only what their sender authorised", World: "ledger",
-		Gen:  Scenario{Weights: map[string]int{"send": 8, "call": 16, "pour": 3, "data": 1, "replay": 1, "block": 3, "clock": 1}, Lo: 20, Hi: 120, Mixed: true}.Gen,
-		Exec: baseExec("C04", func(w *World) []Observer { return []Observer{NewOracleC04()} }),
+		Gen:   Scenario{Weights: map[string]int{"send": 8, "call": 16, "pour": 3, "data": 1, "replay": 1, "block": 3, "clock": 1}, Lo: 20, Hi: 120, Mixed: true}.Gen,
+		Exec:  baseExec("C04", func(w *World) []Observer { return []Observer{NewOracleC04()} }),
 		Quick: sim.Budget{Runs: 320, WallS: 90}, Thorough: sim.Budget{Runs: 20000, WallS: 1500},
 		LevelText: "seeded search over all transaction types and contract functions; on the MPT diff of each applied transaction the sender loses at most value+fee and any other debited account must be the called contract's wallet or covered by an authorisation the oracle verified itself",
 		LevelNote: "StateContext.Validate() runs before the contract on the pinned tree, so the oracle does not rely on it; signed-transfer and free-storage authorisations are registered by the multisig / storage workloads after the oracle re-verifies the signatures",
@@ -209,8 +209,8 @@ func init() {
 	})
 	sim.Register(&sim.Check{
 		ID: "C07", Title: "The state cache never disagrees with the state trie", World: "ledger",
-		Gen:  Scenario{Weights: map[string]int{"send": 4, "call": 16, "pour": 4, "data": 0, "replay": 1, "block": 5, "clock": 1}, Lo: 20, Hi: 120, Mixed: true}.Gen,
-		Exec: baseExec("C07", func(w *World) []Observer { return []Observer{NewOracleC07(w)} }),
+		Gen:   Scenario{Weights: map[string]int{"send": 4, "call": 16, "pour": 4, "data": 0, "replay": 1, "block": 5, "clock": 1}, Lo: 20, Hi: 120, Mixed: true}.Gen,
+		Exec:  baseExec("C07", func(w *World) []Observer { return []Observer{NewOracleC07(w)} }),
 		Quick: sim.Budget{Runs: 240, WallS: 90}, Thorough: sim.Budget{Runs: 12000, WallS: 1500},
 		LevelText: "through hook H1 every cache-served GetTrieNode is compared with an uncached read (second trie object, empty cache, same node DB and root); at every transaction end (success, chargeable failure, rejection) every touched key is read through the cache stack and compared with the trie, then the returned value is scribbled over in place and read again (aliasing)",
 		LevelNote: "covers every type stored through StateContext because the check is by interface; trie-node entries of the same cache are content-addressed and not under test; the cache implementation itself lives in github.com/0chain/common (outside /repo), the Clone/CopyFrom methods of the entity types are in /repo",
@@ -219,8 +219,8 @@ func init() {
 	})
 	sim.Register(&sim.Check{
 		ID: "C08", Title: "State entities serialize losslessly and canonically", World: "ledger",
-		Gen:  Scenario{Weights: map[string]int{"send": 2, "call": 18, "pour": 3, "data": 0, "replay": 0, "block": 3, "clock": 1}, Lo: 20, Hi: 120, Mixed: true}.Gen,
-		Exec: baseExec("C08", func(w *World) []Observer { return []Observer{NewOracleC08(w)} }),
+		Gen:   Scenario{Weights: map[string]int{"send": 2, "call": 18, "pour": 3, "data": 0, "replay": 0, "block": 3, "clock": 1}, Lo: 20, Hi: 120, Mixed: true}.Gen,
+		Exec:  baseExec("C08", func(w *World) []Observer { return []Observer{NewOracleC08(w)} }),
 		Quick: sim.Budget{Runs: 240, WallS: 90}, Thorough: sim.Budget{Runs: 12000, WallS: 1500},
 		LevelText: "at every InsertTrieNode (hook H1, including genesis) the value is encoded, decoded into a fresh value of the same type and re-encoded: bytes identical, two encodings of the same value identical",
 		LevelNote: "input-class property hosted in the simulation: field-value coverage is whatever the histories and swarm extremes produce (probes type:<T> list the entity types reached)",
@@ -234,8 +234,8 @@ var coreWeights = map[string]int{"send": 10, "call": 10, "pour": 3, "data": 1, "
 func init() {
 	sim.Register(&sim.Check{
 		ID: "C01", Title: "Total token supply is conserved by every transaction", World: "ledger",
-		Gen:  Scenario{Weights: coreWeights, Lo: 20, Hi: 120, Mixed: true}.Gen,
-		Exec: baseExec("C01", func(w *World) []Observer { return []Observer{OracleC01{}} }),
+		Gen:   Scenario{Weights: coreWeights, Lo: 20, Hi: 120, Mixed: true}.Gen,
+		Exec:  baseExec("C01", func(w *World) []Observer { return []Observer{OracleC01{}} }),
 		Quick: sim.Budget{Runs: 320, WallS: 90}, Thorough: sim.Budget{Runs: 20000, WallS: 1500},
 		LevelText: "seeded search over transaction histories (every transaction type, every registered contract function with well-formed/boundary/malformed payloads, boundary values and fees, replays) on a real chain with all contracts; " +
 			"conservation decided on a structural MPT diff per transaction and a full trie walk per block; a clean batch is evidence, not proof",
@@ -246,18 +246,39 @@ func init() {
 	})
 	sim.Register(&sim.Check{
 		ID: "C03", Title: "Each account's transactions apply once, in strict nonce order", World: "ledger",
-		Gen:  Scenario{Weights: map[string]int{"send": 12, "call": 6, "pour": 2, "data": 1, "replay": 6, "block": 4, "clock": 0}, Lo: 20, Hi: 120, Mixed: true}.Gen,
-		Exec: baseExec("C03", func(w *World) []Observer { return []Observer{NewOracleC03()} }),
+		Gen:   Scenario{Weights: map[string]int{"send": 12, "call": 6, "pour": 2, "data": 1, "replay": 6, "block": 4, "clock": 0}, Lo: 20, Hi: 120, Mixed: true}.Gen,
+		Exec:  baseExec("C03", func(w *World) []Observer { return []Observer{NewOracleC03()} }),
 		Quick: sim.Budget{Runs: 320, WallS: 90}, Thorough: sim.Budget{Runs: 20000, WallS: 1500},
 		LevelText: "seeded search over submission histories with nonces drawn from {expected, ±1, 0, negative, far future}, duplicates and byte-identical replays of applied transactions; per-account reference counter compared with the nonce stored in the real trie",
 		LevelNote: "ingestion path exercised: Chain.UpdateState directly (the generator's past/future classification is covered by C45)",
 		Technique: "deterministic simulation: seeded histories with replay/duplicate faults against a per-account counter model",
 		DesignRef: "6/C03", Regime: "single-threaded event loop", Components: w1Components,
 	})
+	c05 := Scenario{Prop: "C05", Weights: map[string]int{"send": 14, "call": 8, "pour": 3, "data": 1, "replay": 1, "block": 3, "clock": 0}, Lo: 20, Hi: 120, Mixed: true,
+		Early: func(w *World) []Observer { return []Observer{OracleC05{}} },
+		Setup: func(w *World, r *Runner) []Observer { r.AllowPoke = true; return nil }}
+	c05gen := func(seed uint64, tier string) *sim.Plan {
+		p := c05.Gen(seed, tier)
+		// boundary states a conserving history cannot reach: in a third of the runs some
+		// account is put within a few units of 2^64-1 and then receives transfers
+		pr := sim.NewRNG(seed).Child("poke")
+		if pr.Intn(3) == 0 && len(p.Steps) > 2 {
+			for k := pr.Range(1, 3); k > 0; k-- {
+				acct := pr.Intn(6)
+				at := pr.Intn(len(p.Steps))
+				ins := []sim.Step{{Op: "poke", A: acct, I: []int64{int64(pr.Pick([]int{3, 3, 2, 1})*0 + []int{0, 10, 999, 1e9}[pr.Intn(4)])}}}
+				for j := pr.Range(1, 4); j > 0; j-- {
+					ins = append(ins, sim.Step{Op: "send", A: pr.Intn(6), I: []int64{int64(acct), int64([]int{VOne, VSmall, VMedium, VHalf}[pr.Intn(4)]), 2, 0}})
+				}
+				p.Steps = append(p.Steps[:at], append(ins, p.Steps[at:]...)...)
+			}
+		}
+		return p
+	}
 	sim.Register(&sim.Check{
 		ID: "C05", Title: "Balances never overdraw or wrap", World: "ledger",
-		Gen:  Scenario{Weights: map[string]int{"send": 14, "call": 8, "pour": 3, "data": 1, "replay": 1, "block": 3, "clock": 0}, Lo: 20, Hi: 120, Mixed: true}.Gen,
-		Exec: baseExec("C05", func(w *World) []Observer { return []Observer{OracleC05{}} }),
+		Gen:   c05gen,
+		Exec:  c05.Exec,
 		Quick: sim.Budget{Runs: 320, WallS: 90}, Thorough: sim.Budget{Runs: 20000, WallS: 1500},
 		LevelText: "seeded search with boundary amounts (0, 1, balance, balance+1, supply, supply+1, 2^63-1, 2^63, 2^64-1) for values and fees; reference arithmetic in math/big; rejected transactions must leave the block state root bit-identical",
 		LevelNote: "multi-transfer contract paths (vesting trigger, stake unlock, mint) are exercised by their own workloads (C11, C16, C18) with this oracle attached",
